@@ -311,6 +311,14 @@ def run(ctx):
     allrows = lines + py + st_rows
     # (the variant tag is not part of the specification's input)
 
+    # ---- oracle anchors (ref/ArithVectors.tla), evaluated concurrently with the first shard
+    import threading
+    anchor = {}
+    def run_anchor():
+        anchor["r"] = vlib.tlc("ArithVectors", workers=4, timeout=1200, quiet=True)
+    th = threading.Thread(target=run_anchor)
+    th.start()
+
     # ---- 2. TLC (shards of SHARD lines, each run on all cores)
     bad, n_eval_total, states, wall = [], 0, 0, 0.0
     stripped = [{k: v for k, v in r.items() if k != "variant"} for r in allrows]
@@ -339,6 +347,14 @@ def run(ctx):
     ev.cov["tlc_wall_s"] = round(wall, 1)
     ev.cov["tlc_runs"] = (len(stripped) + SHARD - 1) // SHARD
 
+    th.join()
+    ar = anchor.get("r")
+    if ar is None or vlib.tlc_infra_failed(ar):
+        ctx.note_inconclusive("ArithVectors gave no verdict (rc=%s)" % (ar.rc if ar else None))
+    elif ar.rc != 0:
+        ctx.note_inconclusive("the anchors of the oracle fail (ArithVectors): %s %s" % (ar.prints[:5], (ar.violation or "")[:200]))
+    else:
+        ev.cov["oracle_anchor_vectors"] = (ar.distinct - 1) // 2
     # oracle self-check
     py_bad = [i for i in range(n_impl + 1, n_impl + len(py) + 1) if i in badset]
     ev.cov["oracle_lines_checked_against_python"] = len(py)
